@@ -14,7 +14,7 @@ use crate::check::context::function::python::STR;
 use crate::check::context::{Context, LookupClass};
 use crate::check::name::string_name::StringName;
 use crate::check::name::true_name::TrueName;
-use crate::check::name::{Empty, Mutable, Name, TupleCallable};
+use crate::check::name::{Empty, Mutable, Name, TupleCallable, Union};
 use crate::check::result::TypeErr;
 use crate::common::delimit::comma_delm;
 use crate::common::position::Position;
@@ -158,20 +158,20 @@ fn field_access(
         return Err(vec![TypeErr::new(accessed.pos, &msg)]);
     }
 
-    let mut pushed = 0;
-    for entity_name in &entity_name.names {
+    // the field of a union is of the union of the types of that field, whatever the order of the members
+    let mut field_ty = Name::empty();
+    for entity_name in entity_name.names.iter().sorted() {
         let field = ctx
             .class(entity_name, accessed.pos)
             .map_err(|errs| access_class_cause(&errs, other, accessed, entity_name, msg))?
             .field(name, accessed.pos)
             .map_err(|errs| access_field_cause(&errs, other, entity_name, name, msg))?;
-
-        let field_ty_exp = Expected::new(accessed.pos, &Type { name: field.ty });
-        constraints.push("field access", &field_ty_exp, other);
-        pushed += 1;
+        field_ty = field_ty.union(&field.ty);
     }
 
-    unify_link(constraints, finished, ctx, total + pushed)
+    let field_ty_exp = Expected::new(accessed.pos, &Type { name: field_ty });
+    constraints.push("field access", &field_ty_exp, other);
+    unify_link(constraints, finished, ctx, total + 1)
 }
 
 #[allow(clippy::too_many_arguments)]
@@ -192,23 +192,16 @@ fn function_access(
         return Err(vec![TypeErr::new(accessed.pos, &msg)]);
     }
 
-    let mut pushed = 0;
-    for entity_name in &entity_name.names {
+    // the result of a method of a union is of the union of the results, whatever the order of the members
+    let (mut pushed, mut ret_ty) = (1, Name::empty());
+    for entity_name in entity_name.names.iter().sorted() {
         let class = ctx
             .class(entity_name, accessed.pos)
             .map_err(|errs| access_class_cause(&errs, other, accessed, entity_name, msg))?;
         let fun = class
             .fun(name, accessed.pos)
             .map_err(|errs| access_fun_cause(&errs, other, entity_name, name, args, msg))?;
-
-        let fun_ty_exp = Expected::new(
-            accessed.pos,
-            &Type {
-                name: fun.ret_ty.clone(),
-            },
-        );
-        constraints.push("function access", other, &fun_ty_exp);
-        pushed += 1;
+        ret_ty = ret_ty.union(&fun.ret_ty);
 
         pushed += unify_fun_arg(
             entity_name,
@@ -220,6 +213,8 @@ fn function_access(
         )?;
     }
 
+    let fun_ty_exp = Expected::new(accessed.pos, &Type { name: ret_ty });
+    constraints.push("function access", other, &fun_ty_exp);
     unify_link(constraints, finished, ctx, total + pushed)
 }
 
